@@ -193,16 +193,19 @@ def run_sub_shard(args):
     modname, subname, tier, seed, shard, nshards = args
     t0 = time.time()
     rep = new_report(subname)
+    import contextlib
     try:
         import importlib
         mod = importlib.import_module(modname)
         sub = {s.name: s for s in mod.subs()}[subname]
-        if sub.plain is not None:
-            _run_plain(sub, rep, tier, seed, shard, nshards)
-        elif sub.machine is not None:
-            _run_machine(sub, rep, tier, seed, shard, nshards)
-        else:
-            _run_hypothesis(sub, rep, tier, seed, shard, nshards)
+        # the code under test may print (verbose=True is a hyper-parameter like any other): its stdout is discarded
+        with open(os.devnull, "w") as devnull, contextlib.redirect_stdout(devnull):
+            if sub.plain is not None:
+                _run_plain(sub, rep, tier, seed, shard, nshards)
+            elif sub.machine is not None:
+                _run_machine(sub, rep, tier, seed, shard, nshards)
+            else:
+                _run_hypothesis(sub, rep, tier, seed, shard, nshards)
     except Exception:
         rep["error"] = traceback.format_exc()
     rep["wall_s"] = time.time() - t0
@@ -395,7 +398,8 @@ def run_property(pid, modname, tier, seed, jobs, level="exploration", assumption
                     close = [s for n, s in table.items() if n.startswith(payload["sub"]) or payload["sub"].startswith(n)]
                     sub = (close or subs)[0]
                 corpus_n += 1
-                sub.oracle(payload["case"])
+                with open(os.devnull, "w") as devnull, __import__("contextlib").redirect_stdout(devnull):
+                    sub.oracle(payload["case"])
             except KnownFinding as k:
                 known_hit[k.fid] = known_hit.get(k.fid, 0) + 1
                 known_hit.setdefault("_msg_" + k.fid, k.msg)
@@ -494,7 +498,8 @@ def replay(pid, modname, path):
         close = [s for n, s in table.items() if n.startswith(payload["sub"]) or payload["sub"].startswith(n)]
         sub = (close or list(table.values()))[0]
     try:
-        sub.oracle(payload["case"])
+        with open(os.devnull, "w") as devnull, __import__("contextlib").redirect_stdout(devnull):
+            sub.oracle(payload["case"])
     except KnownFinding as k:
         print(f"KNOWN-FINDING: property={pid} id={k.fid} {k.msg}")
         return 0
